@@ -808,7 +808,7 @@ func (t *termRenderer) term(s *pstate, v ssa.Value, d int) string {
 	case *ssa.Slice:
 		// variadic argument packs: new([N]T)[:] with constant-index stores -> [e0, e1, ...]
 		if a, ok := x.X.(*ssa.Alloc); ok && x.Low == nil && x.High == nil {
-			if arr, ok := a.Type().Underlying().(*types.Pointer).Elem().Underlying().(*types.Array); ok && arr.Len() <= 8 {
+			if arr, ok := a.Type().Underlying().(*types.Pointer).Elem().Underlying().(*types.Array); ok && arr.Len() <= 16 {
 				elems := make([]string, arr.Len())
 				found := 0
 				if refs := a.Referrers(); refs != nil {
